@@ -45,8 +45,8 @@ CLAIMED = {
    ref="DESIGN.md §3 C17"),
  "C14": dict(
    technique="static analysis: typestate/ordering path queries on *sql.Tx (callback error/success edges, deferred recover closures), single-statement rule for BulkInsert, context-key def-use",
-   text="Structural necessary conditions decided for every function that begins a transaction: rollback on the callback's error edge on all paths and no commit there; commit on the success edge; a deferred function that itself calls recover(), rolls back on the recovered edge and re-panics with the recovered value; no commit in a deferred function without its own recover()==nil test; no commit after rollback; each driver's BulkInsert executes at most one statement unless inside a transaction; a *sql.Tx stored in a context is read back somewhere.",
-   note="Does not cover what the database does on commit/rollback, nor cancelled contexts inside the driver. Known finding: txContextKey is written and never read (ORM calls inside ORM.Transaction run outside the transaction). Trusted: go/types, go/ssa.",
+   text="Structural necessary conditions decided for every function that begins a transaction: rollback on the callback's error edge on all paths and no commit there; commit on the success edge; a deferred function that itself calls recover(), rolls back on the recovered edge and re-panics with the recovered value; no commit in a deferred function without its own recover()==nil test; no commit after rollback; each driver's BulkInsert executes at most one statement unless inside a transaction; a *sql.Tx stored in a context is read back, and every executor the ORM invokes on its Database reads that key and calls a *sql.Tx method in the driver ORM.Transaction supports.",
+   note="Does not cover what the database does on commit/rollback, nor cancelled contexts inside the driver. Trusted: go/types, go/ssa.",
    ref="DESIGN.md §3 C14"),
  "C12": dict(
    technique="static analysis: who-may-call rule for reflection, guard-edge/must-pass-through path queries in CallMethod and canonicalMethodName, allow-list table extraction and who-may-write rule, panic-site audit (interface equality, unchecked assertions) over provider packages, reachable-surface enumeration from method sets",
